@@ -143,6 +143,7 @@ type Exec struct {
 	dry         int
 	dryLoop     *LoopInfo
 	lenient     bool
+	lazy        bool // freshValue: pointers beyond the depth and sequences of non-scalars become lazy objects
 	lenientFailed bool
 	imported    map[*Object]*Object
 	initPkg     *ssa.Package
@@ -1562,6 +1563,7 @@ type LoopInfo struct {
 	names  []string
 	ord    int
 	printed bool
+	at      ssa.Instruction // call clauses: the call instruction (values defined before it in its block are in scope)
 }
 
 type FuncInfo struct {
@@ -2430,7 +2432,7 @@ func (x *Exec) callSiteClauses(fr *Frame, fn *ssa.Function, args []Value, pos to
 	if blk == nil || blk.Parent() != fr.fn {
 		return
 	}
-	li := &LoopInfo{head: blk, key: "call"}
+	li := &LoopInfo{head: blk, key: "call", at: x.curCall}
 	saved := x.st
 	for _, c := range cls {
 		gf := x.P.ghostFn(fr.fn.Pkg, c.Ghost)
